@@ -1028,6 +1028,16 @@ def corpus():
     c(R, [["connect"], ["inbound"], ["data", 0, hx(E_r + GO + b"\x00\x00\x00\x01\x00")]], "records-bad-box-same-chunk")
     c(R, [["connect"], ["inbound"], ["data", 0, hx(E_r + GO + b"\x00\x00\x01\x00" + bytes(100))], ["data", 0, hx(bytes(155))],
           ["data", 0, "00"]], "records-256-byte-record")
+    # MANY contenders at once (a port scan, a crowd of strangers, many partial handshakes): more pending inbound
+    # negotiations than any plausible cap (20 / 40), the OLDEST of them a slow key holder; then a fast winner — or
+    # nobody, up to the deadline.  Every other connection is closed, whatever its age; nothing is confirmed afterwards.
+    for nmany in (20, 40):
+        crowd = [["inbound"], ["data", 0, hx(E_s[:5])]] + [["inbound"] for _ in range(nmany)] + \
+                [["data", 1 + j, hx(b"GET / HTTP"[:1 + j % 9])] for j in range(0, nmany, 3)]
+        c(L, [["connect"]] + crowd + [["inbound"], ["data", nmany + 1, hx(E_s)], ["advance", 1], ["data", 0, hx(E_s[5:])],
+                                      ["advance", 70]], "crowd-%d-then-winner" % nmany)
+        c(L, [["connect"]] + crowd + [["advance", 60], ["advance", 60], ["data", 0, hx(E_s[5:])], ["advance", 10]],
+          "crowd-%d-deadline" % nmany)
     # late arrivals: the listening port must be gone once connect() has fired
     c(L, [["connect"], ["advance", 120], ["inbound"], ["data", 0, hx(E_s)], ["advance", 10]], "late-keyholder-after-deadline")
     c(dict(L, directs=1), [["connect"], ["advance", 60], ["advance", 60], ["inbound"], ["data", 0, hx(E_s)]], "late-keyholder-after-deadline-2")
